@@ -34,6 +34,11 @@ func whyClass(s string) string {
 
 // runProgCase runs pc, records evidence and reports a violation with signature prefix fam.
 func runProgCase(w *h.W, fam string, pc *h.ProgCase, size int) {
+	runProgCaseF(w, fam, nil, pc, size)
+}
+
+// runProgCaseF is runProgCase with a refinement of the signature for the differing step.
+func runProgCaseF(w *h.W, fam string, refine func(r *h.StepResult) string, pc *h.ProgCase, size int) {
 	w.Guard(pc)
 	res, first, inconc := h.RunProg(pc)
 	w.Unguard()
@@ -80,7 +85,13 @@ func runProgCase(w *h.W, fam string, pc *h.ProgCase, size int) {
 		if _, f2, _ := h.RunProg(&small); f2 < 0 {
 			small = *pc // the reduction lost the violation (state dependent): keep everything
 		}
-		w.Violation(fam+": "+whyClass(r.Why), &small, exp, r.Impl.String()+"  ("+r.Why+")", size)
+		sig := fam + ": " + whyClass(r.Why)
+		if refine != nil {
+			if s := refine(&r); s != "" {
+				sig = fam + ": " + s
+			}
+		}
+		w.Violation(sig, &small, exp, r.Impl.String()+"  ("+r.Why+")", size)
 	}
 }
 
